@@ -108,7 +108,7 @@ func (s *quicServer) run() error {
 		}
 		debugLogServerConnAccepted(c, s.logger)
 
-		if err := r.limiterAllowN(netAddr2NetipAddr(c.LocalAddr()).Addr(), costQuicConn); err != nil {
+		if err := r.limiterAllowN(netAddr2NetipAddr(c.RemoteAddr()).Addr(), costQuicConn); err != nil {
 			debugLogServerConnClosed(c, s.logger, err)
 			c.CloseWithError(0, "service unavailable, overloaded")
 		} else {
